@@ -261,6 +261,9 @@ class Interp(object):
             else:
                 di = i - (len(params) - ndef)
                 if di < 0:
+                    if self.depth == 0:
+                        # the harness itself calls the function under contract: a changed signature means the contract no longer fits
+                        raise Undecided('signature of %s changed: no value for parameter %s' % (fr.fname, p))
                     self.raise_('TypeError', 'missing argument %s' % p)
                 fr.locals[p] = self.eval(defaults[di], Frame(fr.mod, fr.cls, '<default>'))
         extra = args[len(params):]
